@@ -18,7 +18,7 @@ import (
 // agent closes A (CLOSE callback) | client B goes away (its relay goroutine closes B and
 // tells the agent) | the agent returns data for C.  Oracle, on every schedule, BEFORE any
 // clean-up: C - which nobody closed - is still in the table with an open connection and
-// got its data; A and B are gone from the table and their connections are closed; the
+// got its data - returned by the agent as two chunks in one check-in - whole and in order; A and B are gone from the table and their connections are closed; the
 // agent is told exactly once that B closed and never that A or C did ("closing either
 // side removes the socket everywhere" - and only that socket).
 func runTablesThreeClients(r *ev.Run) {
@@ -66,7 +66,7 @@ func runTablesThreeClients(r *ev.Run) {
 			se.s.Settle()
 			se.s.SetExplore(true)
 			ready = true
-			for _, t := range se.tasks(cbClose(sid[0]), cbRead(sid[2], []byte("for C"))) {
+			for _, t := range se.tasks(cbClose(sid[0]), cbRead(sid[2], []byte("for ")), cbRead(sid[2], []byte("C"))) {
 				if sub, ct, _, ok := parseSocketTask(t); ok && sub == agent.SOCKET_COMMAND_CLOSE {
 					closeTasks = append(closeTasks, ct.id)
 				}
